@@ -1281,6 +1281,10 @@ class tensor:
         if (order == 1).all():
             return self.copy()
 
+        if not np.array_equal(np.sort(order), np.arange(self.ndims)):
+            # Np transpose would silently read negative entries as axes from the end
+            assert False, "Invalid permutation order"
+
         # Np transpose does error checking on order, acts as permutation
 
         data = to_memory_order(np.transpose(self.data, order), self.order)
